@@ -75,6 +75,16 @@ def enumerate_cases(tier: str):
                     yield {"kind": "gate", "version": version, "how": how, "cmd": 4, "type": mtype, "ack": ack}
 
 
+    # the same with the library logging at DEBUG (what the CLI does), strings no other case resolves
+    for idx, base in enumerate(("1.4", "1.5", "2.0", "2.1", "2.2", "2.3", "1.0", "3.1")):
+        for via in ("get_protocol", "reply", "presentation"):
+            yield {"kind": "map", "text": f"{base}.{700 + idx}", "via": via, "debug_log": True}
+        yield {"kind": "hist", "listen_mode": "persistent", "debug_log": True, "ops": [["rx", f"0;255;3;0;2;{base}.{800 + idx}\n"], ["probe", "edge"]]}
+    # a failed read of the transport between a report and the next message: the version stays reported, the rules stay in force
+    for report in ("1.5.1", "2.0.0", "2.2.0"):
+        for kind in ("read", "failed", "base"):
+            for mode in ("fresh", "persistent"):
+                yield {"kind": "hist", "listen_mode": mode, "ops": [["rx", f"0;255;3;0;2;{report}\n"], ["read_error", kind], ["probe", "edge"], ["read_error", kind], ["rx", "0;255;3;0;9;log\n"]]}
     # one gateway object, every type probed under version A, then again after the gateway reported version B
     reports = (None, "1.4", "1.5.1", "2.0.0", "2.1.1", "2.2.0", "2.3.2")
     for first in reports:
@@ -110,6 +120,9 @@ def _hist_ops():
                     ["probe", "edge"],
                     ["probe", "edge"],
                     ["probe", "all"],
+                    ["read_error", "read"],
+                    ["read_error", "failed"],
+                    ["read_error", "base"],
                     ["bystander", "2.2.0"],
                     ["bystander", "1.5.4"],
                     ["bystander", ""],
@@ -123,10 +136,11 @@ def _hist_ops():
 
 def strategy(tier: str):
     return st.one_of(
-        st.fixed_dictionaries({"kind": st.just("hist"), "listen_mode": st.sampled_from(("fresh", "persistent")), "ops": _hist_ops()}),
-        st.fixed_dictionaries({"kind": st.just("hist"), "listen_mode": st.sampled_from(("fresh", "persistent")), "ops": _hist_ops()}),
+        st.fixed_dictionaries({"kind": st.just("hist"), "listen_mode": st.sampled_from(("fresh", "persistent")), "ops": _hist_ops(), "debug_log": st.sampled_from((False, False, True))}),
+        st.fixed_dictionaries({"kind": st.just("hist"), "listen_mode": st.sampled_from(("fresh", "persistent")), "ops": _hist_ops(), "debug_log": st.sampled_from((False, False, True))}),
         st.fixed_dictionaries(
-            {"kind": st.just("map"), "text": st.one_of(release_text, common_release), "via": st.sampled_from(("get_protocol", "reply", "presentation"))}
+            {"kind": st.just("map"), "text": st.one_of(release_text, common_release), "via": st.sampled_from(("get_protocol", "reply", "presentation")),
+             "debug_log": st.sampled_from((False, False, True))}
         ),
     )
 
@@ -221,7 +235,7 @@ def _report_text_of(line: str) -> str | None:
 
 def _run_hist(case: dict) -> Outcome:
     ops = case["ops"]
-    ops = [op if len(op) > 1 and op[0] == "rx" else [op[0], None] + list(op[1:]) for op in ops]
+    ops = [op if len(op) > 1 and op[0] in ("rx", "probe", "read_error") else [op[0], None] + list(op[1:]) for op in ops]
     ops = [op if op[0] != "bystander" else ["bystander", op[2] if len(op) > 2 else ""] for op in ops]
     reports = [_report_text(op[1]) for op in ops if _report_text(op[1]) is not None]
     release_reports = [r for r in reports if ref_protocol(r) is not None]
@@ -258,6 +272,16 @@ def _run_hist(case: dict) -> Outcome:
         bystanders: list = []
         for idx, op in enumerate(ops):
             before = gateway.protocol_version
+            if op[0] == "read_error":
+                # the transport's read fails (line noise, a dropped link): nothing was reported, so nothing may change
+                status, value = await deliver(env.read_error(op[1]))
+                stats["read_errors"] = stats.get("read_errors", 0) + 1
+                if gateway.protocol_version != before:
+                    return fail("version-changed-by-read-error", f"step {idx}: a failed read changed protocol_version {before!r} -> {gateway.protocol_version!r} (rules {gateway.protocol.VERSION})")
+                want_rules = "1.4" if before is None else ref_protocol(before)
+                if want_rules is not None and gateway.protocol.VERSION != want_rules:
+                    return fail("rules-changed-by-read-error", f"step {idx}: after a failed read the rules are {gateway.protocol.VERSION}, reported version {before!r}")
+                continue
             if op[0] == "probe":
                 # the same gateway object is asked about the same types again and again while its version changes
                 stats["probes"] = stats.get("probes", 0) + 1
@@ -374,6 +398,22 @@ def _run_persisted(case: dict) -> Outcome:
 
 
 def run_case(case: dict) -> Outcome:
+    if not case.get("debug_log"):
+        return _run_case(case)
+    # the library logging at DEBUG, as under the bundled CLI; a process that starts that way resolves every version
+    # string for the first time with DEBUG on, so memoised resolutions of earlier cases are forgotten first
+    clear = getattr(get_protocol, "cache_clear", None)
+    if clear is not None:
+        clear()
+    with env.debug_logging(True):
+        out = _run_case(case)
+    if clear is not None:
+        clear()
+    out.classes = tuple(out.classes or ()) + ("debug-log",)
+    return out
+
+
+def _run_case(case: dict) -> Outcome:
     kind = case["kind"]
     if kind == "persisted":
         return _run_persisted(case)
